@@ -370,7 +370,7 @@ func checkC22(c tl2Case) pbt.Result {
 }
 
 func TestC22Formatter(t *testing.T) {
-	pbt.Run(t, "tl2-formatter", pbt.Scale(30000, 2000000), genCase, checkC22)
+	pbt.Run(t, "tl2-formatter", pbt.Scale(30000, 600000), genCase, checkC22)
 }
 
 // the repository's own TL2 files are in the domain too
